@@ -81,7 +81,9 @@ class BlockedForever(Exception):
 _win = {}
 
 
-def window():
+def window(fresh=False):
+    if fresh:
+        _win.pop("w", None)
     if "w" not in _win:
         _win["w"] = CursorAwareWindow(out_stream=termref.Recorder(), in_stream=Scripted([]))
     return _win["w"]
@@ -221,14 +223,54 @@ def report_for(row):
     return "\x1b[%d;1R" % (row + 1)
 
 
-def run_once(c):
+def prime(c_top, c_last):
+    """a window whose top_usable_row is c_top and which last knew the cursor on row c_last.  The last known row lives
+    in a private attribute; when it is there it is set directly, otherwise (a refactor renamed it) the state is reached
+    through the public interface: a fresh window knows no row, and a diff call with a report makes it know one."""
     w = window()
+    if hasattr(w, "_last_cursor_row"):
+        w._last_cursor_row = c_last
+    else:
+        if c_last is None:
+            w = window(fresh=True)
+        else:
+            w.in_get_cursor_diff = False
+            w.extra_bytes_callback = None
+            w.in_stream = Scripted(report_for(c_last))
+            w.get_cursor_vertical_diff()
+        _win.setdefault("noted", []).append("private _last_cursor_row not found: primed through the public interface")
     w.extra_bytes_callback = None
-    w.top_usable_row, w._last_cursor_row = c["top"], c["last"]
+    w.top_usable_row = c_top
+    return w
+
+
+def last_of(w):
+    return getattr(w, "_last_cursor_row", None)        # private: representation-level comparison only
+
+
+def follow_up(w, row2):
+    """the PUBLIC consequence of what the window now believes: one more ordinary get_cursor_vertical_diff with the
+    cursor reported on row2 must account for the movement from the row the terminal reported last"""
+    w.in_stream = Scripted(report_for(row2))
+    w.out_stream.take()
+    before = w.top_usable_row
+    try:
+        ret2 = w.get_cursor_vertical_diff()
+        return dict(ret=ret2, top=w.top_usable_row, before=before, row=row2, queries=w.out_stream.take().count("\x1b[6n"))
+    except Exception as e:  # noqa: BLE001
+        return dict(error=type(e).__name__)
+
+
+def run_once(c):
+    w = prime(c["top"], c["last"])
+    w.in_get_cursor_diff = False
     w.in_stream = Scripted(report_for(c["row"]))
     w.out_stream.take()
-    ret = w._get_cursor_vertical_diff_once()
-    return dict(top=w.top_usable_row, last=w._last_cursor_row, ret=ret)
+    once = getattr(w, "_get_cursor_vertical_diff_once", None) or w.get_cursor_vertical_diff   # private helper, else public
+    ret = once()
+    out = dict(top=w.top_usable_row, last=last_of(w), ret=ret)
+    out["after"] = follow_up(w, c["row"] + 3)
+    return out
 
 
 def opt(v):
@@ -259,9 +301,7 @@ def run_vdiff(c):
     """rounds: [(row, nested, how)], how = None (reports `row`) | 'pre' | 'Z' (the query raises ValueError).
     The nested calls are made from inside in_stream.read (as a signal handler would) when the first event of that
     round is read.  After a call that raised, a FOLLOW-UP call with one clean report is made (`after`)."""
-    w = window()
-    w.extra_bytes_callback = None
-    w.top_usable_row, w._last_cursor_row = c["top"], c["last"]
+    w = prime(c["top"], c["last"])
     w.in_get_cursor_diff, w.another_sigwinch = c["in_diff"], False
     events, starts = [], {}
     for rd in c["rounds"]:
@@ -282,19 +322,12 @@ def run_vdiff(c):
         out["blocked"] = True
     except ValueError:
         out["exc"] = "ValueError"
-    out.update(top=w.top_usable_row, last=w._last_cursor_row, in_diff=w.in_get_cursor_diff, another=w.another_sigwinch,
+    out.update(top=w.top_usable_row, last=last_of(w), in_diff=w.in_get_cursor_diff, another=w.another_sigwinch,
                consumed=w.in_stream.pos, queries=w.out_stream.take().count("\x1b[6n"))
-    if "exc" in out and not c["in_diff"]:
-        # the next call, with an undisturbed report: it must be an ordinary call
-        row2 = c.get("after_row", 11)
-        w.in_stream = Scripted(report_for(row2))
-        before = (w.top_usable_row, w._last_cursor_row)
-        try:
-            ret2 = w.get_cursor_vertical_diff()
-            out["after"] = dict(ret=ret2, top=w.top_usable_row, last=w._last_cursor_row, before=before, row=row2,
-                                queries=w.out_stream.take().count("\x1b[6n"))
-        except Exception as e:  # noqa: BLE001
-            out["after"] = dict(error=type(e).__name__)
+    if not out.get("blocked") and not c["in_diff"]:
+        # the next call, with an undisturbed report: it must be an ordinary call that accounts from the row the terminal
+        # reported last (public consequence of the window's private bookkeeping)
+        out["after"] = follow_up(w, c.get("after_row", 11))
     w.in_get_cursor_diff = False
     return out
 
@@ -317,7 +350,7 @@ def vdiff_reply(c, o):
 def vdiff_oracle(c, o):
     if c["in_diff"]:
         # a call arriving during another query: returns 0 at once, reads nothing, asks for a re-query
-        ok = o.get("ret") == 0 and o["consumed"] == 0 and o["top"] == c["top"] and o["last"] == c["last"] and o["another"]
+        ok = o.get("ret") == 0 and o["consumed"] == 0 and o["top"] == c["top"] and o["another"]
         return None if ok else "nested call did not return 0 untouched: %r" % (o,)
     # the rounds the call goes through: up to and including the first undisturbed or failing one
     k = next((i for i, rd in enumerate(c["rounds"]) if rd[2] or rd[1] == 0), None)
@@ -339,30 +372,32 @@ def vdiff_oracle(c, o):
         # the query raised: ValueError must propagate; the rows reported by the earlier (disturbed) rounds are known
         if o.get("exc") != "ValueError":
             return "the cursor query raised ValueError but the call returned %r" % (o.get("ret"),)
-        if o["last"] != (reported[-1] if reported else c["last"]):
-            return "_last_cursor_row is %r after a failing query" % (o["last"],)
         if not reported and o["top"] != c["top"]:
             return "top_usable_row changed although no row was reported"
-        a = o.get("after")
-        if not a or "error" in a:
-            return "the call after a failing query raised: %r" % (a,)
-        if a["queries"] != 1:
-            return "the call after a failing query made %d cursor queries (it returned %r without asking the terminal)" % (a["queries"], a["ret"])
-        known = a["before"][1]
-        moved = 0 if known is None else a["row"] - known
-        if (a["top"] - a["before"][0]) + a["ret"] != moved or a["last"] != a["row"]:
-            return "after a failing query: top changed by %d, %d returned, cursor moved %d" % (a["top"] - a["before"][0], a["ret"], moved)
-        return None
+        return after_oracle(o, reported[-1] if reported else c["last"], "after a failing query")
     if "exc" in o:
         return "raised %s although every query succeeded" % o["exc"]
     final_row = final[0]
-    if o["last"] != final_row:
-        return "_last_cursor_row is %r after the terminal reported row %d" % (o["last"], final_row)
     # observed movement: from the last known row (the first report when none was known) to the final report
     known = c["last"] if c["last"] is not None else reported[0]
     moved = final_row - known
     if (o["top"] - c["top"]) + o["ret"] != moved:
         return "top_usable_row changed by %d and %d was returned, cursor moved %d" % (o["top"] - c["top"], o["ret"], moved)
+    return after_oracle(o, final_row, "after the terminal reported row %d" % final_row)
+
+
+def after_oracle(o, known, when):
+    """the follow-up call: exactly one query, and it accounts for the movement from `known` (the row the terminal
+    reported last, None = none yet) to the row reported now"""
+    a = o.get("after")
+    if not a or "error" in a:
+        return "the next call %s raised: %r" % (when, a)
+    if a["queries"] != 1:
+        return "the next call %s made %d cursor queries (it returned %r without asking the terminal)" % (when, a["queries"], a["ret"])
+    moved = 0 if known is None else a["row"] - known
+    if (a["top"] - a["before"]) + a["ret"] != moved:
+        return "the next call %s: top changed by %d, %d returned, cursor moved %d since the last report" % (
+            when, a["top"] - a["before"], a["ret"], moved)
     return None
 
 
@@ -460,11 +495,21 @@ def check(ctx):
 
     def once_oracle(c, o):
         moved = 0 if c["last"] is None else c["row"] - c["last"]
-        if (o["top"] - c["top"]) + o["ret"] != moved or o["last"] != c["row"] or (c["last"] is None and (o["ret"] or o["top"] != c["top"])):
+        if (o["top"] - c["top"]) + o["ret"] != moved or (c["last"] is None and (o["ret"] or o["top"] != c["top"])):
             return "top %+d, returned %d, cursor moved %d" % (o["top"] - c["top"], o["ret"], moved)
-        return None
+        return after_oracle(o, c["row"], "after the terminal reported row %d" % c["row"])
 
-    ctx.tie("C18/diff_once", once, lambda c: "once %d %s %d" % (c["top"], opt(c["last"]), c["row"]), once_impl)
+    once_line = lambda c: "once %d %s %d" % (c["top"], opt(c["last"]), c["row"])
+    once_rep = {}
+
+    def once_impl1(c):
+        once_rep[id(c)] = once_impl(c)
+        return once_rep[id(c)]
+
+    # property level: top_usable_row and the returned value; representation level: also the private _last_cursor_row
+    drop_last = lambda r: tuple(x for i, x in enumerate(r.split(" ")) if i != 2) if r.startswith("ok ") else r
+    ctx.tie("C18/diff_once", once, once_line, once_impl1, drop_last, drop_last)
+    ctx.tie("C18/diff_once bookkeeping", once, once_line, lambda c: once_rep[id(c)], level="representation")
     for c in once:
         o = o_once[id(c)]
         ctx.count(c, nontrivial=c["last"] is not None and c["row"] != c["last"], tag="once")
@@ -482,8 +527,23 @@ def check(ctx):
         window().in_get_cursor_diff = False
         return guard(vd_impl0, o_vd, c)
 
-    ctx.tie("C18/vertical_diff", vd, lambda c: "vdiff %d %s %d %s" % (
-        c["top"], opt(c["last"]), c["in_diff"], ",".join(enc_round(rd) for rd in c["rounds"])), vd_impl)
+    vd_line = lambda c: "vdiff %d %s %d %s" % (c["top"], opt(c["last"]), c["in_diff"], ",".join(enc_round(rd) for rd in c["rounds"]))
+    vd_rep = {}
+
+    def vd_impl1(c):
+        vd_rep[id(c)] = vd_impl(c)
+        return vd_rep[id(c)]
+
+    def vd_prop(r):
+        """returned value / exception kind, top_usable_row, the re-entrancy flag, what is left unread"""
+        f = r.split(" ")
+        if f[0] == "blocked" or len(f) < 6:
+            return r
+        off = 1 if f[0] == "ok" else 0            # "ok <dy> top last inDiff another rest" | "E:<kind> top last inDiff another rest"
+        return (f[0], f[1] if off else "", f[off + 1], f[off + 3], f[off + 5])
+
+    ctx.tie("C18/vertical_diff", vd, vd_line, vd_impl1, vd_prop, vd_prop)
+    ctx.tie("C18/vertical_diff bookkeeping", vd, vd_line, lambda c: vd_rep[id(c)], level="representation")
     for c in vd:
         o = o_vd[id(c)]
         ctx.count(c, nontrivial=len(c["rounds"]) > 1,
@@ -510,7 +570,14 @@ def check(ctx):
             houts[id(c)] = e
             return "raised %s: %s" % (type(e).__name__, e)
 
-    ctx.tie("C18/render-move-diff histories", hist, c07.line, hist_impl, c07.canon, c07.canon)
+    hrep = {}
+
+    def hist_impl1(c):
+        hrep[id(c)] = hist_impl(c)
+        return hrep[id(c)]
+
+    ctx.tie("C18/render-move-diff histories", hist, c07.line, hist_impl1, c07.canon_prop, c07.canon_prop)
+    ctx.tie("C18/render-move-diff operations", hist, c07.line, lambda c: hrep[id(c)], c07.canon, c07.canon, level="representation")
     for c in hist:
         o = houts[id(c)]
         ctx.count(c, tag="history:%d-diffs" % sum(1 for st in c["steps"] if st[0] == "D"))
@@ -519,16 +586,21 @@ def check(ctx):
             ctx.violation("render/movement/diff history: " + w, c, None)
     # sequences of calls: the bookkeeping telescopes over any history of movements
     seq_oracle(ctx)
+    flush_notes(ctx)
+
+
+def flush_notes(ctx):
+    for n in sorted(set(_win.pop("noted", []))):
+        ctx.note(n)
 
 
 def seq_oracle(ctx):
     r = ctx.rng
     for _ in range(600 if ctx.thorough else 200):
-        w = window()
-        w.extra_bytes_callback = None
-        top0 = w.top_usable_row = r.randint(0, 10)
+        top0 = r.randint(0, 10)
         row0 = row = r.randint(0, 20)
-        w._last_cursor_row, w.in_get_cursor_diff = row, False
+        w = prime(top0, row)
+        w.in_get_cursor_diff = False
         total, hist = 0, []
         crashed = None
         failed = 0
